@@ -200,6 +200,22 @@ func c20Codes(c *ev.Ctx, f *lpFormat) {
 			if len(b) != 2 || uint32(core.DecodeBFloat16(b)) != cu || b[0] != byte(cu) || b[1] != byte(cu>>8) {
 				c.Violation("bfloat16:c7-bytes", c20Viol{Format: f.name, Clause: "byte encoding does not round-trip (little-endian)", Code: fmt.Sprintf("0x%x", cu), Got: fmt.Sprintf("%x", b)})
 			}
+			// the bytes returned belong to the caller: they are overwritten here, and every code
+			// is encoded once more afterwards (below) — a result that shares memory with an
+			// earlier one shows the overwrite
+			for i := range b {
+				b[i] = 0xA5
+			}
+		}
+	}
+	if f.name == "bfloat16" {
+		for code := 0; code < f.ncodes; code++ {
+			cu := uint32(code)
+			b := core.BFloat16(cu).Encode()
+			if len(b) != 2 || b[0] != byte(cu) || b[1] != byte(cu>>8) {
+				c.Violation("bfloat16:c7-bytes-after-caller-wrote-into-earlier-result", c20Viol{Format: f.name, Clause: "byte encoding changes after the caller overwrote a buffer returned earlier", Code: fmt.Sprintf("0x%x", cu), Got: fmt.Sprintf("%x", b)})
+			}
+			c.Evals(1)
 		}
 	}
 }
